@@ -103,6 +103,8 @@ type Link struct {
 	deadAt int64
 	// cliDoneAt: when the client called Close (unix nanoseconds), 0 before
 	cliDoneAt int64
+	// writeBroken: client writes fail while reads still block (half-open connection)
+	writeBroken int32
 
 	// write stall (a peer that has stopped reading: back-pressure): client writes block while stalled
 	stallMu sync.Mutex
@@ -176,6 +178,10 @@ func (l *Link) DeadAt() time.Time {
 	return time.Unix(0, n)
 }
 
+// BreakWrites makes the link half-open: from now on client writes fail at once, while the client's reads keep blocking (no EOF) -
+// the way a connection looks whose outgoing path died first. The client has to notice through a failed write or its keepalive.
+func (l *Link) BreakWrites() { atomic.StoreInt32(&l.writeBroken, 1) }
+
 // ClientClosedAt returns the moment the client closed its end (zero time before).
 func (l *Link) ClientClosedAt() time.Time {
 	n := atomic.LoadInt64(&l.cliDoneAt)
@@ -232,7 +238,7 @@ func (c *clientEnd) Read() ([]byte, error) {
 }
 
 func (c *clientEnd) Write(b []byte) error {
-	if atomic.LoadInt32(&c.closed) != 0 || c.l.Dead() {
+	if atomic.LoadInt32(&c.closed) != 0 || c.l.Dead() || atomic.LoadInt32(&c.l.writeBroken) != 0 {
 		return transport.ErrAlreadyClosed
 	}
 	if st := c.l.stalled(); st != nil {
